@@ -149,7 +149,17 @@ DYNCONFIG = {
     "monitor": {"module": "MonDynConfig.tla", "cfg": "MonDynConfig.cfg"},
 }
 
-MODULES = {"jobqueue": JOBQUEUE, "joblife": JOBLIFE, "cron": CRON, "dynconfig": DYNCONFIG}
+def _functional(name, spec, mon, extra_thorough=None):
+    q = [{"module": spec + "_Cases.tla", "cfg": spec + "_Cases.cfg", "timeout": 900}]
+    t = list(q) + ([{"module": spec + "_Cases.tla", "cfg": extra_thorough, "timeout": 2400}] if extra_thorough else [])
+    return {"name": name, "vh": name, "design": {"quick": [], "thorough": []}, "sim": {"quick": [], "thorough": []},
+            "cases": {"quick": q, "thorough": t}, "harness": {"quick": [], "thorough": []}, "monitor": {"module": mon + ".tla", "cfg": mon + ".cfg"}}
+
+
+PARALLEL = _functional("parallel", "Parallel", "MonParallel", "Parallel_Cases_big.cfg")
+OPTIONS = _functional("options", "Options", "MonOptions")
+
+MODULES = {"jobqueue": JOBQUEUE, "joblife": JOBLIFE, "cron": CRON, "dynconfig": DYNCONFIG, "parallel": PARALLEL, "options": OPTIONS}
 
 PROPS = {
     "C05": {"modules": ["jobqueue"], "assumptions": [
@@ -184,12 +194,32 @@ PROPS["C19"] = {"modules": ["dynconfig"], "assumptions": [
     "wrongly typed values are: a string for a number or boolean, a number for a string; a map where a scalar is expected is silently dropped by the merge library and is not part of the explored input classes",
 ]}
 
+C20_COVERS = {"C02", "C05", "C06", "C07", "C08", "C09", "C10", "C11", "C12", "C13", "C15"}
+PROPS["C20"] = {"modules": ["cron", "jobqueue", "joblife"], "assumptions": [
+    "faults are injected at the simulated API per call: rejected (Conflict, ServerTimeout, InternalError) in every tier, applied-but-error in the thorough tier; a crash discards every in-memory structure and rebuilds it as Run/Recover/Init do",
+    "faults, retries and crashes do not advance the clock by themselves (DESIGN 3.7)",
+    "every safety / convergence formula of C02, C05-C13, C15 that fails in a run after an injected fault or crash is reported by this check as well as by its own property's check",
+]}
+
+PROPS["C14"] = {"modules": ["parallel"], "assumptions": [
+    "the specification leaves the index identity (6-character hash) uninterpreted; its injectivity is discharged per enumerated case on the real HashIndex (weakest link, see DESIGN section 4 C14)",
+    "TLC enumerates every spec up to the bounds in the Parallel_Cases configuration; larger specs are not explored",
+]}
+PROPS["C18"] = {"modules": ["options"], "assumptions": [
+    "values are drawn from a catalogue (absent, null, wrong type, empty, padded, allowed, custom, containing variable syntax); strings outside it are not explored",
+    "for a value that itself contains variable syntax only determinism of the rendered task is required (the statement does not say whether values are re-scanned)",
+    "date options: one instant and two explicit moment formats",
+]}
+
 _PASS = ["NeverEarly", "OnSchedule", "Stops", "Once", "InOrder", "Cap", "NoGap", "HeapFollows"]
 FORMULAS = {
     "C01": ["C01_" + x for x in _PASS] + ["C01_HeapIndex"],
     "C02": ["C02_AtMostOne", "C02_Identity", "C02_KeyRoundTrip", "C02_Requested", "C02_Served", "C02_SharedCacheIntact"],
     "C03": ["C03_" + x for x in _PASS],
+    "C14": ["C14_Expansion", "C14_Deterministic", "C14_Admission", "C14_DistinctIdentity", "C14_OwnVariables"],
+    "C18": ["C18_Eval", "C18_DefaultAgrees", "C18_Deterministic", "C18_Subst"],
     "C19": ["C19_Layering", "C19_LKG"],
+    "C20": ["C20_Converges", "C20_Quiescent", "<every formula of C02, C05-C13, C15 on runs with injected faults or crashes>"],
     "C04": ["C04_" + x for x in _PASS],
     "C05": ["C05_Admission"],
     "C06": ["C06_Fifo", "C06_EnqueueNeverRefused", "C06_AllowNeverRefused", "C06_RefusedOnlyAtLimit", "C06_NoStuck"],
@@ -232,6 +262,9 @@ LEVEL_TEXT.update({
     "C04": "TLC checks on the design spec (every restart instant, persisted lastScheduled written by the status controller, lastUpdated stamped by the webhook, windows, downtime shorter and longer than the threshold) and on traces of freshly started real CronWorkers that the heap after a start is the first due time after max(lastScheduled, start - maxDowntime, lastUpdated, notBefore) (start time itself when never scheduled) and that the first pass requests exactly the due times after that reference, capped at the limit, never one at or before lastScheduled.",
 })
 LEVEL_TEXT["C19"] = "TLC exhaustively checks on the DynConfig design spec (loader caches replaced only by updates that parse as a whole, ordered field-wise merge with override, decode, last-known-good per configuration name) that a source is never partially applied, that a decodable read is the field-wise layering of the current contents including zero values, that an undecodable read returns exactly the last successful value (an error only if there never was one) and never the wrongly typed value; TLC then checks the same layering and last-known-good formulas on traces of the real ConfigManager + DefaultsLoader + ConfigMapLoader + SecretLoader read through ContextConfigs.Jobs/JobConfigs/Cron, for TLC-generated update/read sequences (abstract fields mapped onto the 11 concrete fields in rotation) and seeded random sequences over all fields with zero, non-zero, wrongly typed and unparsable contents in either source."
+LEVEL_TEXT["C20"] = "The design specs of the three system modules (Cron with its reconciler, JobQueue, JobLife) have fault actions at every API call and crash/restart; TLC checks their safety invariants and quiescent-state goals (request served, due Job started, decided Job finished, kill/deletion/TTL completed) with faults enabled. On the real controllers, every replayed TLC behaviour and seeded random run injects rejected writes (and applied-but-error writes, crashes) through the simulated API, drives the real retry path (reconciler.Controller work loop: rate-limited requeue for ever), ends with a drain to quiescence and a livelock budget; TLC's monitors then evaluate all safety formulas along the run and all convergence goals at the drained end, and this check reports those that fail after an injected fault."
+LEVEL_TEXT["C14"] = "A functional TLA+ specification (Parallel.tla) defines the expansion of a parallelism spec (0..N-1, the listed keys, the cartesian product with sorted keys and the last key fastest), when an input can have distinct indexes at all, and the variables of an index; TLC enumerates every spec up to the configured bounds (counts, key lists with duplicates / prefixes / empty strings, matrices up to 3 keys x 2 values), checks the specification's own size and distinctness laws on each, and every enumerated case is evaluated on the real GenerateIndexes (repeated, order determinism), HashIndex, GenerateTaskName, NewPod (substituted task.index_* variables), GetParallelStatus (one status slot per index) and ValidateParallelismSpec; TLC then judges the observations against the specification (expansion equality, own variables, admission must reject undistinguishable inputs, accepted => distinct hash / task name / status slot)."
+LEVEL_TEXT["C18"] = "A functional TLA+ specification (Options.tla) defines Eval(option, submitted value) for the five option types (default exactly when no value was given, trimming, required, allowed values unless custom, multi joining, bool formats, date parsing), Default(option), and Subst (highest-priority source per variable, reserved unknowns empty, other text untouched); TLC enumerates option configs x submitted values (672 cases) and substitution-source subsets (32), checks the specification's own laws (default agrees, null = absent, constraints) and each case is evaluated on the real EvaluateOptions / MakeDefaultOptions through the webhook's JSON decoding, or on the real pipeline JobConfig -> Job mutating webhook (configName, optionValues, substitutions) -> NewPod (image, args, env), 25 times each; TLC judges outcome equality and determinism."
 DESIGN_REF = {p: "DESIGN.md section 4 (%s)" % p for p in ["C%02d" % i for i in range(1, 21)]}
 TECHNIQUE = {}
 LEVEL_NOTE = {}
